@@ -724,8 +724,12 @@ func c44History(r *vkit.Run, h *c44Hist) {
 	if origV > cmax {
 		r.Violation(sig("version-above-client-offer"), fmt.Sprintf("resumed %s session although the client now offers at most %s", versName(origV), versName(h.C2.MaxV)), wit)
 	}
-	if f.Vers == origV && (origV < h.S2.minV() || origV > h.S2.maxV() || !versionAllowedByGrade(&h.S2, h.C2.SNI, origV)) {
-		r.Violation(sig("version-no-longer-enabled-on-server"), fmt.Sprintf("resumed %s session although the server now enables [%s,%s] (rule %q)", versName(origV), versName(h.S2.minV()), versName(h.S2.maxV()), h.C2.SNI), wit)
+	if origV < h.S2.minV() || origV > h.S2.maxV() {
+		r.Violation(sig("version-outside-server-range"), fmt.Sprintf("resumed %s session although the server now enables [%s,%s]", versName(origV), versName(h.S2.minV()), versName(h.S2.maxV())), wit)
+	} else if f.Vers == origV && !versionAllowedByGrade(&h.S2, h.C2.SNI, origV) {
+		// (when the server answers with another version than the session's, the grade was applied to
+		// that other version: same root cause as version-differs-from-original, not reported twice)
+		r.Violation(sig("version-refused-by-rule-grade"), fmt.Sprintf("resumed %s session although the grade of the rule for %q forbids that version", versName(origV), h.C2.SNI), wit)
 	}
 	if !in16(h.C2.Suites, origSuite) {
 		r.Violation(sig("suite-not-offered-by-client"), fmt.Sprintf("resumed %s which the client no longer offers", suiteName(origSuite)), wit)
